@@ -450,7 +450,8 @@ class Report:
             self.known.append(text)
 
     def finish(self):
-        os.makedirs(EVID, exist_ok=True)
+        evid = EVID if os.path.realpath(REPO) == "/repo" else os.path.join(WORK, "evidence_alt")
+        os.makedirs(evid, exist_ok=True)
         ev = {
             "property_id": self.prop,
             "tier": self.tier,
@@ -465,7 +466,7 @@ class Report:
             ev["coverage"]["known_findings_reported"] = self.known
         if self.notes:
             ev["coverage"]["notes"] = self.notes
-        json.dump(ev, open(os.path.join(EVID, self.prop + ".json"), "w"), indent=1, default=str)
+        json.dump(ev, open(os.path.join(evid, self.prop + ".json"), "w"), indent=1, default=str)
         for t in self.known:
             print("KNOWN-FINDING: property=%s %s" % (self.prop, t))
         for path, noinput, what in self.violations:
